@@ -18,6 +18,7 @@ What is proved (for all strings / names, no bound):
 -/
 import DW.Lemmas.Names
 import DW.Lemmas.GenDump
+import DW.Lemmas.GenDumpPy
 import DW.Generated.Tables
 
 namespace DW.Props.C15
@@ -181,6 +182,14 @@ parameter or a local that is definitely assigned on every path before the read, 
 (the generator's `_locals`), or is the builtin `Ellipsis`; and no closure name is shadowed by a local. -/
 theorem C15_gendump_well_scoped (printable : Char → Bool) (g : GIn) : wellScoped printable g = true :=
   wellScoped_all printable g
+
+open DW.GenDump in
+/-- … and under Python's rule taken literally (a name assigned anywhere in the body is local: reading it before it is definitely
+assigned is an UnboundLocalError even when the closure holds the same name; any other name must come from the closure or the
+builtins): the checker `checkL2sPy` accepts the body generated for every class.  (The two checkers agree whenever the scope lists
+the written names among its locals — `checkL2s_eq_py` — which `genScope` does by construction.) -/
+theorem C15_gendump_well_scoped_py (printable : Char → Bool) (g : GIn) : wellScopedPy printable g = true :=
+  wellScopedPy_all printable g
 
 open DW.GenDump in
 /-- the checker's reading rule is Python's whenever only assigned names are local — which `genScope` guarantees by
